@@ -532,6 +532,119 @@ fn pos(hay: &str, needle: &str, what: &str) -> Result<usize, String> {
     Ok(hay.find(&needle.replace([' ', '\n'], "")).unwrap())
 }
 
+/// How a function body uses `self`.
+#[derive(Default)]
+struct SelfUse {
+    fields: Vec<String>,
+    muts: Vec<String>,
+    calls: Vec<(String, String)>,
+    /// uses of `self` that are not `self.<field>…`
+    other: Vec<String>,
+}
+
+/// the field `f` if `e` is `self.f`, `self.f.x`, `self.f.0.y`, …
+fn self_root(e: &Expr) -> Option<String> {
+    match e {
+        Expr::Field(f) => match &*f.base {
+            Expr::Path(p) if p.path.is_ident("self") => Some(f.member.to_token_stream().to_string()),
+            other => self_root(other),
+        },
+        Expr::Paren(p) => self_root(&p.expr),
+        _ => None,
+    }
+}
+
+fn push_uniq<T: PartialEq + Ord>(v: &mut Vec<T>, x: T) {
+    if !v.contains(&x) {
+        v.push(x);
+        v.sort();
+    }
+}
+
+impl<'ast> syn::visit::Visit<'ast> for SelfUse {
+    fn visit_expr(&mut self, e: &'ast Expr) {
+        match e {
+            Expr::Field(_) => {
+                if let Some(f) = self_root(e) {
+                    push_uniq(&mut self.fields, f);
+                    return;
+                }
+            }
+            Expr::Reference(r) if r.mutability.is_some() => {
+                if let Some(f) = self_root(&r.expr) {
+                    push_uniq(&mut self.muts, f);
+                }
+            }
+            Expr::Assign(a) => {
+                if let Some(f) = self_root(&a.left) {
+                    push_uniq(&mut self.muts, f);
+                }
+            }
+            Expr::MethodCall(mc) => {
+                if let Some(f) = self_root(&mc.receiver) {
+                    push_uniq(&mut self.calls, (f, mc.method.to_string()));
+                }
+            }
+            Expr::Path(p) if p.path.is_ident("self") => {
+                self.other.push("self".into());
+            }
+            _ => {}
+        }
+        syn::visit::visit_expr(self, e);
+    }
+    fn visit_macro(&mut self, m: &'ast syn::Macro) {
+        // format!/… arguments: look for `self` among the tokens
+        if m.tokens.to_string().split(|c: char| !c.is_alphanumeric() && c != '_').any(|w| w == "self") {
+            self.other.push(format!("{}!(… self …)", path_str(&m.path)));
+        }
+    }
+}
+
+/// `ty` in `file` derives `PartialEq` (and has no hand-written `impl PartialEq`),
+/// with exactly the named fields if given.
+fn derives_eq(file: &syn::File, rel: &str, ty: &str, fields: Option<Vec<&str>>) -> Result<(), String> {
+    let mut found = false;
+    for it in &file.items {
+        let (ident, attrs, names): (&syn::Ident, &Vec<syn::Attribute>, Option<Vec<String>>) = match it {
+            syn::Item::Struct(s) => (
+                &s.ident,
+                &s.attrs,
+                match &s.fields {
+                    syn::Fields::Named(n) => Some(n.named.iter().map(|f| f.ident.as_ref().unwrap().to_string()).collect()),
+                    _ => None,
+                },
+            ),
+            syn::Item::Enum(e) => (&e.ident, &e.attrs, None),
+            syn::Item::Impl(i) => {
+                if let Some((_, tr, _)) = &i.trait_ {
+                    let t = path_str(tr);
+                    if (t == "PartialEq" || t.ends_with("::PartialEq") || t == "Eq") && toks(&i.self_ty) == ty {
+                        return Err(format!("{rel}: hand-written `impl {t} for {ty}`: equality of {ty} is outside the model"));
+                    }
+                }
+                continue;
+            }
+            _ => continue,
+        };
+        if ident != ty {
+            continue;
+        }
+        found = true;
+        let derives = attrs.iter().any(|a| {
+            a.path().is_ident("derive") && a.meta.to_token_stream().to_string().split(|c: char| !c.is_alphanumeric()).any(|w| w == "PartialEq")
+        });
+        if !derives {
+            return Err(format!("{rel}: {ty} does not derive PartialEq"));
+        }
+        if let Some(want) = &fields {
+            if names.as_deref() != Some(&want.iter().map(|s| s.to_string()).collect::<Vec<_>>()[..]) {
+                return Err(format!("{rel}: fields of {ty} are {names:?}, the model has {want:?}"));
+            }
+        }
+    }
+    if found { Ok(()) } else { Err(format!("{rel}: type {ty} not found")) }
+}
+
 fn gate(repo: &Path) -> R {
     let file = find::parse(repo, "src/codegen/check.rs")?;
     let f = find::func(&file, "check_roto_type", None)?;
@@ -581,6 +694,11 @@ fn gate(repo: &Path) -> R {
     let cg = find::parse(repo, "src/codegen/mod.rs")?;
     let gf = find::func(&cg, "get_function", Some("Module"))?;
     let g = toks(&gf.block);
+    // Each gate step is a statement of the function body itself — not nested
+    // under a condition, a loop or a closure — in this order; whatever else
+    // stands at the top level is a plain `let` that can neither leave the
+    // function nor branch. So every request runs every check, whatever was
+    // asked before.
     let steps = [
         ("prefix", "let name = format!(\"pkg.{name}\");"),
         ("lookup", "let function_info = self.functions.get(&name).ok_or_else(|| { FunctionRetrievalError::DoesNotExist {"),
@@ -588,22 +706,102 @@ fn gate(repo: &Path) -> R {
         ("requireSignature", "let Some(sig) = &sig else { return Err(FunctionRetrievalError::DoesNotExist {"),
         ("checkArgs", "F::check_args(&mut self.type_info, &sig.parameter_types)?;"),
         ("checkReturn", "check_roto_type_reflect::<F::Return>(&mut self.type_info, &sig.return_type,).map_err(|e| { FunctionRetrievalError::TypeMismatch(\"the return value\".to_string(), e,) })?;"),
-        ("finish", "let func_ptr = self.inner.0.cranelift_jit.get_finalized_function(id); Ok(TypedFunc {"),
+        ("funcPtr", "let func_ptr = self.inner.0.cranelift_jit.get_finalized_function(id);"),
+        ("finish", "Ok(TypedFunc {"),
     ];
-    let mut last = 0usize;
+    let top: Vec<String> = gf.block.stmts.iter().map(toks).collect();
+    let mut next = 0usize;
     let mut step_names = vec![];
     for (name, frag) in steps {
-        let frag = frag.replace("\"pkg.{name}\"", "\"pkg.{name}\"");
-        let p = pos(&g, &frag, &format!("get_function step {name}"))?;
-        if p < last {
+        let frag = frag.replace([' ', '\n'], "");
+        let hits: Vec<usize> = top.iter().enumerate().filter(|(_, t)| t.starts_with(&frag)).map(|(i, _)| i).collect();
+        let [at] = hits[..] else {
+            return Err(format!(
+                "get_function step {name}: expected exactly one top-level statement `{frag}…` (found {}); a gate step that is nested, conditional or missing is outside the model",
+                hits.len()
+            ));
+        };
+        if at < next {
             return Err(format!("get_function: step {name} out of order"));
         }
-        last = p;
+        // statements between two steps
+        for (i, t) in top.iter().enumerate().take(at).skip(next) {
+            let plain_let = matches!(&gf.block.stmts[i], Stmt::Local(l) if l.init.as_ref().is_some_and(|x| x.diverge.is_none()));
+            let branches = ["?", "return", "if", "match", "while", "for", "loop", "unsafe", "break"]
+                .iter()
+                .any(|k| gf.block.stmts[i].to_token_stream().into_iter().any(|tt| tt.to_string() == *k))
+                || t.contains('?');
+            if !plain_let || branches {
+                return Err(format!("get_function: statement `{t}` between the gate steps is outside the model"));
+            }
+        }
+        next = at + 1;
         step_names.push(name);
+    }
+    if next != top.len() {
+        return Err("get_function: statements after the final Ok(TypedFunc {..})".into());
     }
     // nothing else may return Ok
     if g.matches("Ok(").count() != 1 {
         return Err("get_function: more than one Ok(..)".into());
+    }
+    // what of `self` the function touches: fields mentioned, fields borrowed
+    // mutably, methods called on (something rooted at) a field
+    let mut sv = SelfUse::default();
+    syn::visit::Visit::visit_block(&mut sv, &gf.block);
+    if let Some(bad) = sv.other.first() {
+        return Err(format!("get_function: use of `self` outside the model: `{bad}`"));
+    }
+
+    // ---- type identity: `Type::named` builds a name in the GLOBAL scope, and
+    // equality of `Type` / `TypeName` / `ResolvedName` / `ScopeRef` /
+    // `Identifier` is the derived, field-by-field one (so `==` on a named type
+    // compares scope, identifier and arguments — what `RotoTy.beq` models)
+    let types_rs = find::parse(repo, "src/typechecker/types.rs")?;
+    let named = find::func(&types_rs, "named", Some("Type"))?;
+    let named_s = toks(&named.block);
+    let named_ok = (|| -> Option<bool> {
+        // Type::Name(TypeName { name: ResolvedName { scope: ScopeRef::GLOBAL, ident: ident.into() }, arguments }), fields in any order
+        let [Stmt::Expr(Expr::Call(c), None)] = &named.block.stmts[..] else { return None };
+        if toks(&c.func) != "Type::Name" || c.args.len() != 1 {
+            return None;
+        }
+        let Expr::Struct(tn) = &c.args[0] else { return None };
+        if path_str(&tn.path) != "TypeName" || tn.rest.is_some() || tn.fields.len() != 2 {
+            return None;
+        }
+        let field = |n: &str| tn.fields.iter().find(|f| f.member.to_token_stream().to_string() == n).map(|f| &f.expr);
+        if toks(field("arguments")?) != "arguments" {
+            return None;
+        }
+        let name = Tr::default().val(field("name")?).ok()?;
+        Some(name == "(ResolvedName.mk ScopeRef.GLOBAL ident)")
+    })();
+    if named_ok != Some(true) {
+        return Err(format!("Type::named: body outside the model (expected a TypeName in ScopeRef::GLOBAL with the given identifier and arguments): `{named_s}`"));
+    }
+    let scope_rs = find::parse(repo, "src/typechecker/scope.rs")?;
+    let ast_rs = find::parse(repo, "src/ast.rs")?;
+    let mut derived = vec![];
+    for (file, rel, ty, fields) in [
+        (&types_rs, "src/typechecker/types.rs", "Type", None),
+        (&types_rs, "src/typechecker/types.rs", "TypeName", Some(vec!["name", "arguments"])),
+        (&scope_rs, "src/typechecker/scope.rs", "ResolvedName", Some(vec!["scope", "ident"])),
+        (&scope_rs, "src/typechecker/scope.rs", "ScopeRef", None),
+        (&ast_rs, "src/ast.rs", "Identifier", None),
+    ] {
+        derives_eq(file, rel, ty, fields)?;
+        derived.push(ty);
+    }
+    let global = scope_rs.items.iter().find_map(|it| match it {
+        syn::Item::Impl(i) if toks(&i.self_ty) == "ScopeRef" => i.items.iter().find_map(|ii| match ii {
+            syn::ImplItem::Const(c) if c.ident == "GLOBAL" => Some(toks(&c.expr)),
+            _ => None,
+        }),
+        _ => None,
+    });
+    if global.as_deref() != Some("Self(0)") {
+        return Err(format!("ScopeRef::GLOBAL: expected `Self(0)`, found {global:?}"));
     }
 
     // ---- output
@@ -628,6 +826,14 @@ fn gate(repo: &Path) -> R {
     out.push_str(&arities.iter().map(|a| a.to_string()).collect::<Vec<_>>().join(", "));
     out.push_str("]\n\n/-- gate steps of `Module::get_function`, in source order -/\ndef getFunctionSteps : List String := [");
     out.push_str(&step_names.iter().map(|s| format!("{s:?}")).collect::<Vec<_>>().join(", "));
+    out.push_str("]\n\n/-- fields of `self` that `Module::get_function` mentions -/\ndef getFunctionSelfFields : List Ident := [");
+    out.push_str(&sv.fields.iter().map(|f| lit_ident(f)).collect::<Vec<_>>().join(", "));
+    out.push_str("]\n\n/-- fields of `self` it borrows mutably (`&mut self.f`) or assigns to -/\ndef getFunctionMutFields : List Ident := [");
+    out.push_str(&sv.muts.iter().map(|f| lit_ident(f)).collect::<Vec<_>>().join(", "));
+    out.push_str("]\n\n/-- (field, method) for every method it calls on something rooted at `self.field` -/\ndef getFunctionSelfCalls : List (Ident × Ident) := [");
+    out.push_str(&sv.calls.iter().map(|(f, m)| format!("({}, {})", lit_ident(f), lit_ident(m))).collect::<Vec<_>>().join(", "));
+    out.push_str("]\n\n/-- types whose `==` is the derived field-by-field equality -/\ndef derivedEq : List Ident := [");
+    out.push_str(&derived.iter().map(|f| lit_ident(f)).collect::<Vec<_>>().join(", "));
     out.push_str("]\n\nend RotoV.Gen.Gate\n");
     Ok(out)
 }
